@@ -5,16 +5,20 @@ Two coalescing layers, each proved to preserve the fold for EVERY interleaving o
 * agent (`EventQueue<K, ()>` + `to_operation`: key-only queue, value read when the event is written, specification
   level): `Proofs/AgentMapQueue.lean`.
 The index bookkeeping (`head_epoch`, `epoch_map`, arithmetic mod 2^64) of both real queues is modelled faithfully in
-`Model/EpochQueue.lean`; that it equals the specification queue is re-checked by the driver on every step of every
-generated stream (including `head_epoch` seeded just below 2^64) and against the real queues; as a theorem it is
-kept open below.
+`Model/EpochQueue.lean`; that it equals the specification queue is a theorem below (`C02_epoch_queue_*`, for every
+run in which fewer than 2^64 - 1 entries are queued — with 2^64 entries the epochs of positions 0 and 2^64 collide), and
+is additionally re-checked by the driver on every step of every generated stream (including `head_epoch` seeded just
+below 2^64) and against the real queues.
 -/
 import SwimVerif.Proofs.AgentMapQueue
 import SwimVerif.Model.EpochQueue
 import SwimVerif.Model.MapLane
+import SwimVerif.Proofs.EpochQueueRun
+import SwimVerif.Proofs.MapLaneTakeDrop
 
 set_option linter.unusedVariables false
 namespace SwimVerif.WT
+open SwimVerif
 
 /-- **Runtime coalescing preserves the fold**: for every interleaving of pushes and pops (starting from any base
 map), applying what has been popped and then what is still queued gives the map obtained by applying everything that
@@ -49,23 +53,88 @@ theorem C02_agent_queue_invariant (ops : List AOp) : AInv (aRun {} ops) := ainv_
 theorem C02_push_is_append_up_to_fold (m : KMap) (q : List MapOp) (op : MapOp) (h : WFQ q) :
     applyAll m (mqPush q op) = applyAll m (q ++ [op]) := applyAll_mqPush m q op h
 
-/-! Open statements (tied by correspondence + monitors) -/
+/-! ### The indexed queue with wrapping 64-bit epochs refines the specification queue
 
-/-- the index bookkeeping with wrapping epochs implements the specification queue -/
-def C02_epoch_queue_refines_spec_open : Prop :=
-  ∀ (q : EQV.Q) (a : EQV.Entry), q.invOk = true → q.events.length + 1 < EQV.M64 →
-    (q.push a).events = EQV.specPush q.events a ∧ (q.push a).invOk = true
+`EQV.Q` (`events`, `head_epoch`, `epoch_map`, arithmetic mod 2^64) is the faithful model of both real queues; the
+driver executes `invOk` and `events = spec` on every step. Here that is a theorem, for every run. The Boolean `invOk`
+is equivalent to the Prop-level `EQV.Inv` (`Proofs/EpochQueue.lean`), in which the proofs are done. -/
 
-/-- take / drop remove exactly the keys designated by the key order, for both map backings -/
-def C02_take_drop_spec_open : Prop :=
-  ∀ (ops : List ML.Op) (n : Nat),
-    (ML.step (ML.run {} ops) (.dropFirst n)).1.content = (ML.run {} ops).content.drop n ∧
-    (ML.step (ML.run {} ops) (.takeFirst n)).1.content = (ML.run {} ops).content.take n
+/-- the executable index invariant (run by the driver) is the Prop-level one used in the proofs -/
+theorem C02_epoch_queue_invOk_iff_inv (q : EQV.Q) : q.invOk = true ↔ EQV.Inv q := EQV.invOk_iff_inv q
+
+/-- the index bookkeeping with wrapping epochs implements the specification queue: `push` -/
+theorem C02_epoch_queue_refines_spec :
+    ∀ (q : EQV.Q) (a : EQV.Entry), q.invOk = true → q.events.length + 1 < EQV.M64 →
+      (q.push a).events = EQV.specPush q.events a ∧ (q.push a).invOk = true := by
+  intro q a h hlen
+  have := EQV.push_refines ((EQV.invOk_iff_inv q).mp h) (by omega) a
+  exact ⟨this.1, (EQV.invOk_iff_inv _).mpr this.2⟩
+
+/-- the empty queue satisfies the index invariant whatever `head_epoch` it starts from (in particular just below
+2^64, as the hook constructor seeds it) -/
+theorem C02_epoch_queue_empty_inv (h : Nat) (hh : h < EQV.M64) : ({ head := h } : EQV.Q).invOk = true :=
+  (EQV.invOk_iff_inv _).mpr (EQV.inv_empty hh)
+
+/-- `pop` returns the head of the specification queue, leaves its tail, and preserves the index invariant — also
+when `head_epoch` wraps from 2^64 - 1 to 0 -/
+theorem C02_epoch_queue_pop_refines (q : EQV.Q) (h : q.invOk = true) (hlen : q.events.length ≤ EQV.M64) :
+    q.pop.1 = q.events.head? ∧ q.pop.2.events = q.events.tail ∧ q.pop.2.invOk = true := by
+  have := EQV.pop_refines ((EQV.invOk_iff_inv q).mp h) hlen
+  exact ⟨this.1, this.2.1, (EQV.invOk_iff_inv _).mpr this.2.2⟩
+
+/-- **Refinement along every run.** From the empty queue with any `head_epoch < 2^64`, after every prefix of every
+sequence of `push` / `pop` during which the (specification) queue never holds 2^64 - 1 entries, the index invariant
+holds, the indexed queue holds exactly the specification queue, and the next `pop` would return the head of the
+specification queue. -/
+theorem C02_epoch_queue_run_refines (h : Nat) (hh : h < EQV.M64) (ops : List EQV.Op)
+    (hb : ∀ n, (EQV.specRun [] (ops.take n)).length + 1 < EQV.M64) (m : Nat) :
+    (EQV.runQ { head := h } (ops.take m)).invOk = true ∧
+    (EQV.runQ { head := h } (ops.take m)).events = EQV.specRun [] (ops.take m) ∧
+    (EQV.runQ { head := h } (ops.take m)).pop.1 = (EQV.specRun [] (ops.take m)).head? := by
+  have := EQV.run_refines (ops.take m) { head := h } (EQV.inv_empty hh) (by
+    intro n; rw [List.take_take]; exact hb _)
+  refine ⟨(EQV.invOk_iff_inv _).mpr this.1, this.2, ?_⟩
+  rw [EQV.pop_fst, this.2]
+
+/-- a purely syntactic sufficient bound: fewer than 2^64 - 1 operations -/
+theorem C02_epoch_queue_run_refines_short (h : Nat) (hh : h < EQV.M64) (ops : List EQV.Op)
+    (hlen : ops.length + 1 < EQV.M64) :
+    (EQV.runQ { head := h } ops).invOk = true ∧ (EQV.runQ { head := h } ops).events = EQV.specRun [] ops := by
+  have := EQV.run_refines_of_short ops { head := h } (EQV.inv_empty hh) (by simpa using hlen)
+  exact ⟨(EQV.invOk_iff_inv _).mpr this.1, this.2⟩
+
+/-! ### Map lane `Drop(n)` / `Take(n)` -/
+
+/-- the lane's map stays strictly sorted by key along every run (the order `sync` and take/drop use) -/
+theorem C02_map_sorted (ops : List ML.Op) : ML.Sorted (ML.run {} ops).content :=
+  ML.sorted_run ops {} ML.sorted_nil
+
+/-- take / drop remove exactly the keys designated by the key order -/
+theorem C02_take_drop_spec :
+    ∀ (ops : List ML.Op) (n : Nat),
+      (ML.step (ML.run {} ops) (.dropFirst n)).1.content = (ML.run {} ops).content.drop n ∧
+      (ML.step (ML.run {} ops) (.takeFirst n)).1.content = (ML.run {} ops).content.take n :=
+  fun ops n => ⟨ML.dropFirst_content _ n (C02_map_sorted ops), ML.takeFirst_content _ n (C02_map_sorted ops)⟩
 
 /-! Non-vacuity -/
 example : (mqRun {} [.push (.upd 1 [1]), .push (.upd 2 [2]), .push (.upd 1 [3]), .pop]).popped = [.upd 1 [3]] := by
   decide
 example : (mqRun {} [.push (.upd 1 [1]), .push .clear, .push (.upd 2 [2])]).queue = [.clear, .upd 2 [2]] := by decide
 example : (aRun {} [.update 1 [1], .update 1 [2], .remove 1, .pop]).queue = [] := by decide
+
+
+/-! non-vacuity of the epoch-queue theorems: a queue seeded just below 2^64 whose epochs wrap -/
+def exQ : EQV.Q := (({ head := EQV.M64 - 1 } : EQV.Q).push (.upd 1 10)).push (.upd 2 20)
+example : exQ.invOk = true ∧ exQ.events.length + 1 < EQV.M64 ∧ exQ.events.length ≤ EQV.M64 := by decide
+example : exQ.emap = [(1, EQV.M64 - 1), (2, 0)] := by decide
+example : (exQ.push (.upd 2 21)).events = [.upd 1 10, .upd 2 21] ∧ exQ.pop.2.head = 0 ∧
+    (exQ.pop.2.push (.upd 2 22)).events = [.upd 2 22] := by decide
+example : EQV.specRun [] [.push (.upd 1 1), .push (.upd 2 2), .push (.upd 1 3), .pop, .push .clear] = [.clear] := by
+  decide
+/-- take / drop on a non-trivial map -/
+example : (ML.run {} [.update 5 1, .update 2 1, .update 9 1, .update 2 7]).content = [(2, 7), (5, 1), (9, 1)] ∧
+    (ML.step (ML.run {} [.update 5 1, .update 2 1, .update 9 1]) (.dropFirst 2)).1.content = [(9, 1)] ∧
+    (ML.step (ML.run {} [.update 5 1, .update 2 1, .update 9 1]) (.takeFirst 2)).1.content = [(2, 1), (5, 1)] := by
+  decide
 
 end SwimVerif.WT
